@@ -21,7 +21,7 @@ EXPLANATION = (
     'Decides the shape of the code for all inputs; does not decide that the '
     'tree is bit-identical after a refused call.')
 FLOORS = {'C08.a': 20, 'C08.b': 20, 'C08.c': 8, 'C08.d': 8, 'C08.e': 3,
-          'C08.f': 3}
+          'C08.f': 3, 'C08.g': 3}
 
 FILES = ['pyglove/core/symbolic/base.py', 'pyglove/core/symbolic/list.py',
          'pyglove/core/symbolic/dict.py', 'pyglove/core/symbolic/object.py',
@@ -404,13 +404,42 @@ def rule_f(ctx):
   ok_arg = all(c.args and isinstance(c.args[0], ast.Name) and c.args[0].id == 'sealed'
                for c in cont + sup)
   g = C.cfg_of(f.node)
-  skip = g.can_skip(g.entry, lambda n: any(A.call_name(c) == 'self._sym_attributes.seal' for c in n.calls()))
-  skip2 = g.can_skip(g.entry, lambda n: any(A.call_name(c) in ('super().seal', 'super().sym_seal', 'self.sym_seal') for c in n.calls()))
+  # an `is_sealed == sealed` early return (the idiom List/Dict use) is tolerated
+  early = [n for n in g.nodes if n.kind == 'test' and 'is_sealed' in A.unparse(n.ast)
+           and 'sealed' in A.names_read(n.ast)]
+  starts = [g.entry]
+  if early:
+    starts = [m for m, lab in early[0].succ if lab == 'false']
+  is_cont = lambda n: any(A.call_name(c) == 'self._sym_attributes.seal' for c in n.calls())
+  is_sup = lambda n: any(A.call_name(c) in ('super().seal', 'super().sym_seal', 'self.sym_seal') for c in n.calls())
+  skip = any((not is_cont(st)) and g.can_skip(st, is_cont) for st in starts)
+  skip2 = any((not is_sup(st)) and g.can_skip(st, is_sup) for st in starts)
   ok = bool(cont) and bool(sup) and ok_arg and not skip and not skip2
   ctx.ob('C08.f', f.fq, ok,
          'Object.seal seals the attribute container and the object itself with '
-         'the same flag on every path', f.loc,
+         'the same flag on every path that changes the flag', f.loc,
          'container/base seal missing, skipped on some path, or called with a different flag')
+  # construction: an object born sealed has a sealed attribute container.
+  fi = idx.lookup_method(S.OBJECT, '__init__')
+  ctor = [c for c in A.calls_in(fi.node) if (A.call_name(c) or '').endswith('Dict')
+          and A.kwarg(c, 'as_object_attributes_container') is not None]
+  problems = []
+  if len(ctor) != 1:
+    problems.append('attribute container construction not found')
+  else:
+    sk = A.kwarg(ctor[0], 'sealed')
+    sup_init = [c for c in A.calls_in(fi.node) if A.call_name(c) == 'super().__init__']
+    born = bool(sup_init) and isinstance(A.kwarg(sup_init[0], 'sealed'), ast.Name)
+    same = (isinstance(sk, ast.Name) and born and sk.id == A.kwarg(sup_init[0], 'sealed').id)
+    final = [c for c in A.calls_in(fi.node) if A.call_name(c) == 'self.seal' and c.args
+             and isinstance(c.args[0], ast.Name) and born and c.args[0].id == A.kwarg(sup_init[0], 'sealed').id]
+    if not same and not (final and not early):
+      problems.append('the attribute container is not created with the object\'s sealed flag, and the '
+                      'final self.seal(sealed) is a no-op once the flag is already set'
+                      if early else 'neither the container is created sealed nor self.seal(sealed) is called')
+  ctx.ob('C08.f', fi.fq + '#born-sealed', not problems,
+         'an object constructed sealed has its attribute container (hence all '
+         'descendants) sealed', fi.loc, '; '.join(problems))
   # Symbolic.sym_seal stores the flag
   f = idx.func(S.SYMBOLIC + '.sym_seal')
   ok = any(A.call_name(c) == 'self._set_raw_attr' and c.args
@@ -421,9 +450,40 @@ def rule_f(ctx):
          '_sealed is not assigned from the argument')
 
 
+def rule_g(ctx):
+  """Scoped overrides: each scope installs exactly its argument (None = no
+  override) and its getter reads the same key."""
+  from sa.rules import c17
+  idx = ctx.index
+  m = idx.module('pyglove.core.symbolic.flags')
+  for scope, getter in (('as_sealed', 'is_under_sealed_scope'),
+                        ('allow_writable_accessors', 'is_under_accessor_writable_scope'),
+                        ('allow_partial', 'is_under_partial_scope')):
+    fs, fg = m.funcs.get(scope), m.funcs.get(getter)
+    if fs is None or fg is None:
+      raise AnalysisError(f'flags.{scope}/{getter} vanished')
+    problems = c17.scope_installs_param(fs)
+    ks = {A.unparse(c.args[0]) for c in A.calls_in(fs.node)
+          if (A.call_name(c) or '').endswith('thread_local_value_scope') and c.args}
+    kg = {A.unparse(c.args[0]) for c in A.calls_in(fg.node)
+          if (A.call_name(c) or '').endswith('thread_local_get') and c.args}
+    if len(ks) != 1 or ks != kg:
+      problems.append(f'scope sets {sorted(ks)} but getter reads {sorted(kg)}')
+    # getter default is None (no scope => per-object flag decides)
+    for c in A.calls_in(fg.node):
+      if (A.call_name(c) or '').endswith('thread_local_get'):
+        if not (len(c.args) == 2 and isinstance(c.args[1], ast.Constant) and c.args[1].value is None):
+          problems.append('getter default is not None')
+    ctx.ob('C08.g', f'{m.name}.{scope}', not problems,
+           'the scoped override installs exactly the value given (True/False/None) '
+           'under the key its getter reads; outside any scope the getter yields None',
+           fs.loc, '; '.join(problems))
+
+
 def run(ctx):
   ctx.consult(*FILES)
   rule_a(ctx)
+  rule_g(ctx)
   rule_b(ctx)
   rule_c(ctx)
   rule_d(ctx)
